@@ -81,6 +81,11 @@ class NumericArray(list):
     one of gfapy.NumericArray.SUBTYPE
     """
     if all([ isinstance(f, float) for f in self]):
+      for f in self:
+        if f != f or f in [float("inf"), float("-inf")]:
+          raise gfapy.ValueError(
+            "NumericArray contains a non-finite value\n"+
+            "Content: {}".format(repr(self)))
       return "f"
     else:
       e_max = None
